@@ -130,7 +130,9 @@ def main():
                 r = mod.replay(c)
                 return bool(r) and r[0] == _sig
 
-            if still(case):
+            if len(violations) >= 12:
+                msg = f["msg"] + " [not shrunk: more than 12 new signatures in this run]"
+            elif still(case):
                 case, calls = campaign.shrink(case, still, budget=300 if a.tier == "quick" else 3000)
                 r = mod.replay(case)
                 msg = r[1] if r else f["msg"]
